@@ -67,6 +67,10 @@ class E:
         self.unordered = unordered
 
 
+def _raise():
+    raise Err()
+
+
 def _first(L, *d):
     if L:
         return L[0]
@@ -372,7 +376,8 @@ ENTRIES = {
                            lambda L, a: list(L)),
     'toList': E('$c.toList()', lambda L, a: L),
     'list-fn': E('list($c, $x, $o)', lambda L, a: (
-        L if a['kind'] == 'iter' else [L]) + [a['x']] + [a['o']],
+        L if a['kind'] == 'iter' else [L]) + [a['x']] + (
+            a['o'] if a.get('okind') == 'iter' else [a['o']]),
         ['x', 'o'], char=True),
     'flatten': E('[$c, [$o, [$x]]].flatten()',
                  lambda L, a: L + a['o'] + [a['x']], ['o', 'x'],
@@ -518,6 +523,26 @@ ENTRIES = {
                     ['S', 'S2'], elems='intkey'),
     'dict-items': E('dict($c.select([$, $ * 2]))',
                     lambda L, a: {x: x * 2 for x in L}),
+    # ---- which results are lists and which are lazy (characterisation: the
+    # next operator of a pipeline is resolved against that) -------------------
+    'result-kinds': E(
+        '[isList($c.skip(1)), isList($c.take(1)), isList($c.limit(1)), '
+        'isList($c.where(true)), isList($c.select($)), isList($c.reverse()), '
+        'isList($c.distinct()), isList($c.append(1)), isList($c.delete(0)), '
+        'isList($c.replace(0, 1)), isList($c.toList()), '
+        'isList($c.memorize()), isList($c.insert(0, 1))]',
+        lambda L, a: [False] * 10 + [True] * 3,
+        kinds=('tuple', 'list'), char=True),
+    'take-then-index': E('$c.take(2)[0]', lambda L, a: _raise(),
+                         kinds=('tuple', 'list'), char=True),
+    'skip-then-repeat': E('$c.skip(1) * 2', lambda L, a: _raise(),
+                          kinds=('tuple', 'list'), char=True),
+    'take-then-insert-negative': E(
+        '$c.take($n).insert(-1, 9)',
+        lambda L, a: L[:_nonneg(a['n'])], ['n'], char=True),
+    'skip-then-insert-negative': E(
+        '$c.skip($n).insert(-2, 9)',
+        lambda L, a: L[_nonneg(a['n']):], ['n'], char=True),
     # ---- collections containing nulls (null-safe lambdas only) ------------------
     'n-accumulate': E('$c.accumulate([$1, $2])',
                       lambda L, a: _accumulate(L, lambda p, q: [p, q]),
@@ -626,6 +651,16 @@ DICT_ENTRIES = {
     'delete': E('$d.delete($k, zz)', lambda d, a: {
         k: v for k, v in d.items() if k not in (a['k'], 'zz')}),
     'deleteAll': E('$d.deleteAll([$k, $k2])', lambda d, a: {
+        k: v for k, v in d.items() if k not in (a['k'], a['k2'])}),
+    'deleteAll-lazy': E('$d.deleteAll([$k2, zz, $k].select($))',
+                        lambda d, a: {k: v for k, v in d.items()
+                                      if k not in (a['k'], a['k2'], 'zz')}),
+    'deleteAll-where': E('$d.deleteAll($d.keys().where($ != $k))',
+                         lambda d, a: {k: v for k, v in d.items()
+                                       if k == a['k']}),
+    'deleteAll-reversed': E('$d.deleteAll($d.keys().reverse().skip(1))',
+                            lambda d, a: dict(list(d.items())[-1:])),
+    'deleteAll-set': E('$d.deleteAll(set($k, $k2))', lambda d, a: {
         k: v for k, v in d.items() if k not in (a['k'], a['k2'])}),
     'containsKey': E('$d.containsKey($k)', lambda d, a: a['k'] in d),
     'containsValue': E('$d.containsValue($x)',
